@@ -3,11 +3,22 @@ from __future__ import annotations
 import io
 from typing import Any, Optional, Sequence
 
+import scipy.sparse
 from scipy.sparse import load_npz, save_npz, spmatrix
 
 from ._audit import Node
 from ._protocol import PROTOCOL
-from ._utils import LoadContext, SaveContext, get_module
+from ._utils import LoadContext, SaveContext, get_module, get_type_name
+
+# the concrete sparse matrix classes, e.g. "scipy.sparse._csr.csr_matrix"
+SPARSE_MATRIX_TYPE_NAMES = sorted(
+    {
+        get_type_name(obj)
+        for name in dir(scipy.sparse)
+        if isinstance(obj := getattr(scipy.sparse, name), type)
+        and issubclass(obj, spmatrix)
+    }
+)
 
 
 def sparse_matrix_get_state(obj: Any, save_context: SaveContext) -> dict[str, Any]:
@@ -42,7 +53,7 @@ class SparseMatrixNode(Node):
     ) -> None:
         super().__init__(state, load_context, trusted)
         self.type = state["type"]
-        self.trusted = self._get_trusted(trusted, [spmatrix])
+        self.trusted = self._get_trusted(trusted, SPARSE_MATRIX_TYPE_NAMES)
         if self.type != "scipy":
             raise TypeError(
                 f"Cannot load object of type {self.module_name}.{self.class_name}"
